@@ -1,7 +1,7 @@
 (* C18 — proofs (over exact rationals). *)
 From Coq Require Import List ZArith QArith Qabs Bool Arith Lia Lqa.
 Import ListNotations.
-From PP Require Import Lib.RowLin Model.C18.
+From PP Require Import Lib.RowLin Lib.SumF Lib.RowInv Model.C18.
 Local Open Scope Q_scope.
 
 (* ------------------------------------------------------------------ vectors *)
@@ -142,6 +142,94 @@ Proof.
     + pose proof (IH (schur a b rows) x' Hrec Hx' Hnz') as Hs. nra.
 Qed.
 
+(* ------------------------------------------------------------------ quadratic forms as double sums;
+   x^T M x = x^T sym(M) x *)
+Lemma dotv_sumf : forall n x y, length x = n -> length y = n ->
+  dotv x y == sumf n (fun i => nth i x 0 * nth i y 0).
+Proof.
+  induction n as [|n IH]; intros x y Hx Hy.
+  - destruct x; [|discriminate]. reflexivity.
+  - destruct x as [|a x]; [discriminate|]. destruct y as [|b y]; [discriminate|].
+    cbn [dotv sumf nth]. rewrite (IH x y) by (cbn [length] in *; lia). reflexivity.
+Qed.
+
+Lemma nth_mulmv : forall M x i, nth i (mulmv M x) 0 = dotv (nth i M []) x.
+Proof.
+  intros M x i. unfold mulmv.
+  change 0 with ((fun r => dotv r x) []) at 1. apply map_nth.
+Qed.
+
+Definition wf (n : nat) (M : mat) : Prop := length M = n /\ forall r, In r M -> length r = n.
+
+Lemma wf_b_true : forall n M, wf_b n M = true -> wf n M.
+Proof.
+  intros n M H. unfold wf_b in H. apply andb_prop in H. destruct H as [H1 H2].
+  apply Nat.eqb_eq in H1. split; [exact H1|].
+  intros r Hr. rewrite forallb_forall in H2. apply Nat.eqb_eq. apply H2. exact Hr.
+Qed.
+
+Lemma quad_sumf : forall n M x, wf n M -> length x = n ->
+  quad M x == sumf n (fun i => sumf n (fun j => nth i x 0 * ent M i j * nth j x 0)).
+Proof.
+  intros n M x [HM Hrows] Hx. unfold quad.
+  rewrite (dotv_sumf n x (mulmv M x) Hx) by (unfold mulmv; rewrite map_length; exact HM).
+  apply sumf_ext. intros i Hi.
+  rewrite nth_mulmv.
+  rewrite (dotv_sumf n (nth i M []) x) by (try exact Hx; apply Hrows; apply nth_In; lia).
+  rewrite <- sumf_scal. apply sumf_ext. intros j Hj. unfold ent. ring.
+Qed.
+
+Lemma nth_map_seq : forall (A : Type) (F : nat -> A) n i d,
+  (i < n)%nat -> nth i (map F (seq 0 n)) d = F i.
+Proof.
+  intros A F n i d Hi.
+  rewrite (nth_indep _ d (F 0%nat)) by (rewrite map_length, seq_length; exact Hi).
+  rewrite map_nth. rewrite seq_nth by exact Hi. reflexivity.
+Qed.
+
+Lemma wf_sympart : forall n M, wf n (sympart n M).
+Proof.
+  intros n M. unfold sympart. split.
+  - rewrite map_length, seq_length. reflexivity.
+  - intros r Hr. apply in_map_iff in Hr. destruct Hr as [i [E _]]. subst r.
+    rewrite map_length, seq_length. reflexivity.
+Qed.
+
+Lemma ent_sympart : forall n M i j, (i < n)%nat -> (j < n)%nat ->
+  ent (sympart n M) i j == (ent M i j + ent M j i) / 2.
+Proof.
+  intros n M i j Hi Hj. unfold ent at 1. unfold sympart.
+  rewrite (nth_map_seq _ _ n i [] Hi), (nth_map_seq _ _ n j 0 Hj).
+  apply Qred_correct.
+Qed.
+
+Lemma quad_sympart : forall n M x, wf n M -> length x = n ->
+  quad (sympart n M) x == quad M x.
+Proof.
+  intros n M x HM Hx.
+  rewrite (quad_sumf n (sympart n M) x (wf_sympart n M) Hx), (quad_sumf n M x HM Hx).
+  set (F := fun i j => nth i x 0 * ent M i j * nth j x 0).
+  rewrite (sumf_ext n _ (fun i => sumf n (fun j => (1 # 2) * F i j) + sumf n (fun j => (1 # 2) * F j i))).
+  2:{ intros i Hi. rewrite <- sumf_plus. apply sumf_ext. intros j Hj.
+      rewrite (ent_sympart n M i j Hi Hj). unfold F. field. }
+  rewrite sumf_plus.
+  rewrite (sumf_swap n n (fun i j => (1 # 2) * F j i)).
+  fold F.
+  rewrite <- sumf_plus. apply sumf_ext. intros i Hi.
+  rewrite <- sumf_plus. apply sumf_ext. intros j Hj.
+  unfold F. ring.
+Qed.
+
+Lemma mass_spd : forall tol n M x,
+  mass_ok tol n M = true -> length x = n -> ~ allzero x -> 0 < quad M x.
+Proof.
+  intros tol n M x H Hx Hnz. unfold mass_ok in H.
+  apply andb_prop in H. destruct H as [H Hspd].
+  apply andb_prop in H. destruct H as [Hwf Hsym].
+  rewrite <- (quad_sympart n M x (wf_b_true n M Hwf) Hx).
+  apply (spd_certificate n); assumption.
+Qed.
+
 (* ------------------------------------------------------------------ Gram form *)
 Lemma gram_spd : forall (W B : mat) (x : list Q),
   (forall y, length y = length B -> ~ allzero y -> 0 < quad W y) ->
@@ -151,6 +239,130 @@ Proof.
   intros W B x HW HB Hx. unfold gram_quad. apply HW.
   - unfold mulmv. apply map_length.
   - intros Hz. apply Hx. apply HB. exact Hz.
+Qed.
+
+(* ------------------------------------------------------------------ the Gram matrix B^T W B *)
+Definition wfr (m n : nat) (B : mat) : Prop := length B = m /\ forall r, In r B -> length r = n.
+
+Lemma wfr_b_true : forall m n B, wfr_b m n B = true -> wfr m n B.
+Proof.
+  intros m n B H. unfold wfr_b in H. apply andb_prop in H. destruct H as [H1 H2].
+  apply Nat.eqb_eq in H1. split; [exact H1|].
+  intros r Hr. rewrite forallb_forall in H2. apply Nat.eqb_eq. apply H2. exact Hr.
+Qed.
+
+Lemma wf_gram_mat : forall n m W B, wf n (gram_mat n m W B).
+Proof.
+  intros n m W B. unfold gram_mat. split.
+  - rewrite map_length, seq_length. reflexivity.
+  - intros r Hr. apply in_map_iff in Hr. destruct Hr as [i [E _]]. subst r.
+    rewrite map_length, seq_length. reflexivity.
+Qed.
+
+Lemma ent_gram_mat : forall n m W B i j, (i < n)%nat -> (j < n)%nat ->
+  ent (gram_mat n m W B) i j
+  == sumf m (fun k => sumf m (fun l => ent B k i * ent W k l * ent B l j)).
+Proof.
+  intros n m W B i j Hi Hj. unfold ent at 1. unfold gram_mat.
+  rewrite (nth_map_seq _ _ n i [] Hi), (nth_map_seq _ _ n j 0 Hj). apply Qred_correct.
+Qed.
+
+Lemma nth_mulmv_sumf : forall m n B x k, wfr m n B -> length x = n -> (k < m)%nat ->
+  nth k (mulmv B x) 0 == sumf n (fun i => ent B k i * nth i x 0).
+Proof.
+  intros m n B x k [HB Hrows] Hx Hk. rewrite nth_mulmv.
+  rewrite (dotv_sumf n (nth k B []) x) by (try exact Hx; apply Hrows; apply nth_In; lia).
+  apply sumf_ext. intros i _. unfold ent. reflexivity.
+Qed.
+
+Lemma sumf_mul3 : forall n (a b : nat -> Q) w,
+  sumf n a * w * sumf n b == sumf n (fun i => sumf n (fun j => a i * w * b j)).
+Proof.
+  intros n a b w.
+  transitivity (sumf n (fun i => a i * (w * sumf n b))).
+  - rewrite (sumf_scal_r n (w * sumf n b) a). ring.
+  - apply sumf_ext. intros i _. rewrite (sumf_scal n (a i * w) b). ring.
+Qed.
+
+Lemma gram_identity : forall n m W B x,
+  wf m W -> wfr m n B -> length x = n ->
+  quad (gram_mat n m W B) x == gram_quad W B x.
+Proof.
+  intros n m W B x HW HB Hx. unfold gram_quad.
+  assert (Hy : length (mulmv B x) = m) by (unfold mulmv; rewrite map_length; exact (proj1 HB)).
+  rewrite (quad_sumf n _ x (wf_gram_mat n m W B) Hx), (quad_sumf m W _ HW Hy).
+  set (F := fun i j k l => nth i x 0 * ent B k i * ent W k l * ent B l j * nth j x 0).
+  (* left: sum_i sum_j sum_k sum_l F *)
+  transitivity (sumf n (fun i => sumf n (fun j => sumf m (fun k => sumf m (fun l => F i j k l))))).
+  { apply sumf_ext. intros i Hi. apply sumf_ext. intros j Hj.
+    rewrite (ent_gram_mat n m W B i j Hi Hj).
+    rewrite <- sumf_scal, <- sumf_scal_r. apply sumf_ext. intros k _.
+    rewrite <- sumf_scal, <- sumf_scal_r. apply sumf_ext. intros l _. unfold F. ring. }
+  (* right: sum_k sum_l sum_i sum_j F *)
+  symmetry.
+  transitivity (sumf m (fun k => sumf m (fun l => sumf n (fun i => sumf n (fun j => F i j k l))))).
+  { apply sumf_ext. intros k Hk. apply sumf_ext. intros l Hl.
+    rewrite (nth_mulmv_sumf m n B x k HB Hx Hk), (nth_mulmv_sumf m n B x l HB Hx Hl).
+    rewrite sumf_mul3. apply sumf_ext. intros i _. apply sumf_ext. intros j _. unfold F. ring. }
+  (* reorder k l i j -> i j k l *)
+  transitivity (sumf m (fun k => sumf n (fun i => sumf m (fun l => sumf n (fun j => F i j k l))))).
+  { apply sumf_ext. intros k _. apply (sumf_swap m n (fun l i => sumf n (fun j => F i j k l))). }
+  rewrite (sumf_swap m n (fun k i => sumf m (fun l => sumf n (fun j => F i j k l)))).
+  apply sumf_ext. intros i _.
+  transitivity (sumf m (fun k => sumf n (fun j => sumf m (fun l => F i j k l)))).
+  { apply sumf_ext. intros k _. apply (sumf_swap m n (fun l j => F i j k l)). }
+  apply (sumf_swap m n (fun k j => sumf m (fun l => F i j k l))).
+Qed.
+
+Lemma gram_spd_full : forall n m W B x,
+  wf m W -> wfr m n B ->
+  (forall y, length y = m -> ~ allzero y -> 0 < quad W y) ->
+  (allzero (mulmv B x) -> allzero x) ->
+  length x = n -> ~ allzero x -> 0 < quad (gram_mat n m W B) x.
+Proof.
+  intros n m W B x HW HB HPD Hinj Hx Hnz.
+  rewrite (gram_identity n m W B x HW HB Hx).
+  apply gram_spd; [|exact Hinj|exact Hnz].
+  intros y Hy. apply HPD. rewrite Hy. exact (proj1 HB).
+Qed.
+
+Lemma wf_idmat : forall m, wf m (idmat m).
+Proof.
+  intros m. unfold idmat. split.
+  - rewrite map_length, seq_length. reflexivity.
+  - intros r Hr. apply in_map_iff in Hr. destruct Hr as [i [E _]]. subst r.
+    rewrite map_length, seq_length. reflexivity.
+Qed.
+
+(* B^T B positive definite  =>  B injective *)
+Lemma injective_from_gram : forall n m B x,
+  wfr m n B -> spd_chk n (gram_mat n m (idmat m) B) = true -> length x = n ->
+  allzero (mulmv B x) -> allzero x.
+Proof.
+  intros n m B x HB Hspd Hx Hz.
+  destruct (allzero_dec x) as [H|H]; [exact H|exfalso].
+  pose proof (spd_certificate n _ x Hspd Hx H) as Hpos.
+  rewrite (gram_identity n m (idmat m) B x (wf_idmat m) HB Hx) in Hpos.
+  unfold gram_quad, quad in Hpos. rewrite (dotv_allzero_l _ _ Hz) in Hpos. lra.
+Qed.
+
+(* the checker of one captured local matrix: its exact factorised form B^T W B is positive definite *)
+Lemma local_sound : forall tol L x,
+  local_ok tol L = true -> length x = l_n L -> ~ allzero x ->
+  0 < quad (gram_mat (l_n L) (l_m L) (l_W L) (l_B L)) x.
+Proof.
+  intros tol L x H Hx Hnz. unfold local_ok in H.
+  apply andb_prop in H. destruct H as [H Hclose].
+  apply andb_prop in H. destruct H as [H HwfA].
+  apply andb_prop in H. destruct H as [H Hinj].
+  apply andb_prop in H. destruct H as [HB HW].
+  apply wfr_b_true in HB.
+  assert (HwfW : wf (l_m L) (l_W L)).
+  { unfold mass_ok in HW. apply andb_prop in HW. destruct HW as [HW _].
+    apply andb_prop in HW. destruct HW as [HW _]. apply wf_b_true. exact HW. }
+  apply (gram_spd_full (l_n L) (l_m L) (l_W L) (l_B L) x HwfW HB); try assumption.
+  - intros y Hy Hy0. apply (mass_spd tol (l_m L)); assumption.
+  - apply (injective_from_gram (l_n L) (l_m L)); assumption.
 Qed.
 
 (* ------------------------------------------------------------------ the flux equation of one face *)
@@ -209,17 +421,19 @@ Definition res_bound (tol : Q) (I : inst) (r : row) (theta : list Q) : Q :=
 
 Lemma certificate_sound : forall tol I,
   check tol I = true ->
-  (forall x, length x = i_nf I -> ~ allzero x -> 0 < quad (sympart (i_nf I) (i_mass I)) x)
+  (forall x, length x = i_nf I -> ~ allzero x -> 0 < quad (i_mass I) x)
   /\ (forall r theta, In r (i_rows I) -> length theta = 4%nat ->
         Qabs (rdot r (xstate I theta)) <= res_bound tol I r theta).
 Proof.
   intros tol I H. unfold check in H.
+  apply andb_prop in H. destruct H as [H Hloc].
+  apply andb_prop in H. destruct H as [H Hinv].
+  apply andb_prop in H. destruct H as [H Htie].
   apply andb_prop in H. destruct H as [H Hcons].
   apply andb_prop in H. destruct H as [H Hres].
   apply andb_prop in H. destruct H as [Hshape Hmass].
-  unfold mass_ok in Hmass. apply andb_prop in Hmass. destruct Hmass as [Hsym Hspd].
   split.
-  - intros x Hlen Hnz. apply (spd_certificate (i_nf I)); assumption.
+  - intros x Hlen Hnz. apply (mass_spd tol (i_nf I)); assumption.
   - intros r theta Hr Hlen. unfold res_bound, xstate.
     pose proof (lin_quant (basis I) theta r (fun _ => 0)
                   (fun m => tol * (1 + rabs r (basis I m)))) as HQ.
@@ -247,6 +461,184 @@ Proof.
   intros r Hr. rewrite (Hres r Hr), (Hsol r Hr). reflexivity.
 Qed.
 
+(* ------------------------------------------------------------------ RT0 on an interval partition *)
+Lemma cand_flux : forall xs k a c0 j, (j < S (ncell xs))%nat -> rt0_cand xs k a c0 j = - k * a.
+Proof.
+  intros xs k a c0 j Hj. unfold rt0_cand.
+  destruct (Nat.ltb_spec j (S (ncell xs))); [reflexivity|lia].
+Qed.
+
+Lemma cand_pres : forall xs k a c0 c,
+  rt0_cand xs k a c0 (S (ncell xs) + c)%nat = a * ((xn xs c + xn xs (S c)) / 2) + c0.
+Proof.
+  intros xs k a c0 c. unfold rt0_cand.
+  destruct (Nat.ltb_spec (S (ncell xs) + c)%nat (S (ncell xs))); [lia|].
+  replace (S (ncell xs) + c - S (ncell xs))%nat with c by lia. reflexivity.
+Qed.
+
+Lemma rt0_1d_exact : forall xs k a c0 i,
+  ~ k == 0 -> (1 <= ncell xs)%nat -> (i < S (ncell xs) + ncell xs)%nat ->
+  rdot (rt0_row xs k i) (rt0_cand xs k a c0)
+  == rt0_rhs xs (a * xn xs 0 + c0) (a * xn xs (ncell xs) + c0) i.
+Proof.
+  intros xs k a c0 i Hk Hn Hi. unfold rt0_row, rt0_rhs.
+  set (n := ncell xs) in *.
+  destruct (Nat.ltb_spec i (S n)) as [Hf|Hc].
+  - (* flux equation of face i *)
+    unfold rt0_flux_row. fold n.
+    destruct i as [|g].
+    + change (0 <? 0)%nat with false. cbv iota.
+      destruct (Nat.ltb_spec 0 n) as [_|]; [|lia].
+      cbn [app rdot fst snd Nat.eqb].
+      rewrite (cand_flux xs k a c0 0) by (fold n; lia).
+      rewrite (cand_flux xs k a c0 1) by (fold n; lia).
+      unfold n. rewrite cand_pres. unfold hlen. field. exact Hk.
+    + change (0 <? S g)%nat with true. change (S g =? 0)%nat with false. cbv iota. cbn [pred].
+      destruct (Nat.ltb_spec (S g) n) as [Hin|Hlast].
+      * destruct (Nat.eqb_spec (S g) n) as [E|_]; [lia|].
+        cbn [app rdot fst snd].
+        rewrite (cand_flux xs k a c0 g) by (fold n; lia).
+        rewrite (cand_flux xs k a c0 (S g)) by (fold n; lia).
+        rewrite (cand_flux xs k a c0 (S (S g))) by (fold n; lia).
+        unfold n. rewrite !cand_pres. unfold hlen. field. exact Hk.
+      * assert (E : S g = n) by lia.
+        destruct (Nat.eqb_spec (S g) n) as [_|Hne]; [|lia].
+        cbn [app rdot fst snd].
+        rewrite (cand_flux xs k a c0 g) by (fold n; lia).
+        rewrite (cand_flux xs k a c0 (S g)) by (fold n; lia).
+        unfold n. rewrite cand_pres. fold n. rewrite <- E. unfold hlen. field. exact Hk.
+  - (* mass conservation in cell i - (n+1) *)
+    destruct (Nat.eqb_spec i 0) as [E|_]; [lia|].
+    destruct (Nat.eqb_spec i n) as [E|_]; [lia|].
+    unfold rt0_cell_row. cbn [rdot fst snd].
+    rewrite (cand_flux xs k a c0 (i - S n)) by (fold n; lia).
+    rewrite (cand_flux xs k a c0 (S (i - S n))) by (fold n; lia).
+    ring.
+Qed.
+
+(* rows of the 1-D model applied to an arbitrary vector *)
+Lemma row_cell : forall xs k (v : vec) c, (c < ncell xs)%nat ->
+  rdot (rt0_row xs k (S (ncell xs) + c)) v == v c - v (S c).
+Proof.
+  intros xs k v c Hc. unfold rt0_row.
+  destruct (Nat.ltb_spec (S (ncell xs) + c) (S (ncell xs))); [lia|].
+  replace (S (ncell xs) + c - S (ncell xs))%nat with c by lia.
+  unfold rt0_cell_row. cbn [rdot fst snd]. ring.
+Qed.
+
+Lemma row_f0 : forall xs k (v : vec), (1 <= ncell xs)%nat ->
+  rdot (rt0_row xs k 0) v
+  == hlen xs 0 / (3 * k) * v 0%nat + hlen xs 0 / (6 * k) * v 1%nat + v (S (ncell xs) + 0)%nat.
+Proof.
+  intros xs k v Hn. unfold rt0_row.
+  destruct (Nat.ltb_spec 0 (S (ncell xs))); [|lia].
+  unfold rt0_flux_row. change (0 <? 0)%nat with false. cbv iota.
+  destruct (Nat.ltb_spec 0 (ncell xs)); [|lia].
+  cbn [app rdot fst snd]. ring.
+Qed.
+
+Lemma row_fi : forall xs k (v : vec) g, (S g < ncell xs)%nat ->
+  rdot (rt0_row xs k (S g)) v
+  == hlen xs g / (6 * k) * v g + hlen xs g / (3 * k) * v (S g)
+     + hlen xs (S g) / (3 * k) * v (S g) + hlen xs (S g) / (6 * k) * v (S (S g))
+     + v (S (ncell xs) + S g)%nat - v (S (ncell xs) + g)%nat.
+Proof.
+  intros xs k v g Hg. unfold rt0_row.
+  destruct (Nat.ltb_spec (S g) (S (ncell xs))); [|lia].
+  unfold rt0_flux_row. change (0 <? S g)%nat with true. cbv iota. cbn [pred].
+  destruct (Nat.ltb_spec (S g) (ncell xs)); [|lia].
+  cbn [app rdot fst snd]. ring.
+Qed.
+
+Lemma row_fn : forall xs k (v : vec) g, S g = ncell xs ->
+  rdot (rt0_row xs k (S g)) v
+  == hlen xs g / (6 * k) * v g + hlen xs g / (3 * k) * v (S g) - v (S (ncell xs) + g)%nat.
+Proof.
+  intros xs k v g Hg. unfold rt0_row.
+  destruct (Nat.ltb_spec (S g) (S (ncell xs))); [|lia].
+  unfold rt0_flux_row. change (0 <? S g)%nat with true. cbv iota. cbn [pred].
+  destruct (Nat.ltb_spec (S g) (ncell xs)); [lia|].
+  cbn [app rdot fst snd]. ring.
+Qed.
+
+(* the 1-D model system has a trivial kernel: the discrete solution is unique *)
+Lemma rt0_1d_kernel : forall xs k (v : vec),
+  ~ k == 0 -> (1 <= ncell xs)%nat -> ~ xn xs (ncell xs) == xn xs 0 ->
+  (forall i, (i < S (ncell xs) + ncell xs)%nat -> rdot (rt0_row xs k i) v == 0) ->
+  forall j, (j < S (ncell xs) + ncell xs)%nat -> v j == 0.
+Proof.
+  intros xs k v Hk Hn Hx H.
+  set (n := ncell xs) in *.
+  (* all fluxes are equal *)
+  assert (HU : forall f, (f <= n)%nat -> v f == v 0%nat).
+  { induction f as [|f IH]; intros Hf; [reflexivity|].
+    pose proof (H (S n + f)%nat ltac:(lia)) as E. unfold n in E.
+    rewrite (row_cell xs k v f) in E by (fold n; lia).
+    rewrite <- (IH ltac:(lia)). lra. }
+  set (U := v 0%nat) in *.
+  (* the pressures are determined by U *)
+  assert (HP : forall f, (f < n)%nat ->
+     v (S n + f)%nat == - (U / (2 * k)) * (xn xs (S f) + xn xs f - 2 * xn xs 0)).
+  { induction f as [|f IH]; intros Hf.
+    - pose proof (H 0%nat ltac:(lia)) as E. rewrite (row_f0 xs k v) in E by (fold n; lia).
+      fold n in E. rewrite (HU 1%nat ltac:(lia)) in E. fold U in E. unfold hlen in E.
+      assert (E2 : v (S n + 0)%nat
+                   == - ((xn xs 1 - xn xs 0) / (3 * k) * U + (xn xs 1 - xn xs 0) / (6 * k) * U)) by lra.
+      rewrite E2. field. exact Hk.
+    - pose proof (H (S f) ltac:(lia)) as E. rewrite (row_fi xs k v f) in E by (fold n; lia).
+      fold n in E. rewrite (HU f ltac:(lia)), (HU (S f) ltac:(lia)), (HU (S (S f)) ltac:(lia)) in E.
+      rewrite (IH ltac:(lia)) in E. unfold hlen in E.
+      assert (E2 : v (S n + S f)%nat
+                   == - ((xn xs (S f) - xn xs f) / (6 * k) * U + (xn xs (S f) - xn xs f) / (3 * k) * U
+                         + (xn xs (S (S f)) - xn xs (S f)) / (3 * k) * U
+                         + (xn xs (S (S f)) - xn xs (S f)) / (6 * k) * U)
+                      + - (U / (2 * k)) * (xn xs (S f) + xn xs f - 2 * xn xs 0)) by lra.
+      rewrite E2. field. exact Hk. }
+  (* the last flux equation forces U = 0 *)
+  assert (HU0 : U == 0).
+  { destruct n as [|g] eqn:En; [lia|].
+    pose proof (H (S g) ltac:(lia)) as E.
+    rewrite (row_fn xs k v g) in E by (unfold n in En; lia).
+    replace (ncell xs) with (S g) in E by (unfold n in En; lia).
+    rewrite (HU g ltac:(lia)), (HU (S g) ltac:(lia)), (HP g ltac:(lia)) in E.
+    unfold hlen in E.
+    assert (E2 : U * ((xn xs (S g) - xn xs 0) / k) == 0).
+    { rewrite <- E. field. exact Hk. }
+    destruct (Qeq_dec U 0) as [E0|N0]; [exact E0|exfalso].
+    apply Qmult_integral in E2. destruct E2 as [E2|E2]; [contradiction|].
+    apply Hx.
+    assert (E3 : xn xs (S g) - xn xs 0 == 0).
+    { setoid_replace (xn xs (S g) - xn xs 0) with ((xn xs (S g) - xn xs 0) / k * k) by (field; exact Hk).
+      rewrite E2. ring. }
+    lra. }
+  intros j Hj.
+  destruct (Nat.le_gt_cases j n) as [Hle|Hgt].
+  - rewrite (HU j Hle). exact HU0.
+  - replace j with (S n + (j - S n))%nat by lia.
+    rewrite (HP (j - S n)%nat ltac:(lia)), HU0. field. exact Hk.
+Qed.
+
+Lemma rt0_1d_unique : forall xs k a c0 (x : vec),
+  ~ k == 0 -> (1 <= ncell xs)%nat -> ~ xn xs (ncell xs) == xn xs 0 ->
+  (forall i, (i < S (ncell xs) + ncell xs)%nat ->
+     rdot (rt0_row xs k i) x == rt0_rhs xs (a * xn xs 0 + c0) (a * xn xs (ncell xs) + c0) i) ->
+  forall j, (j < S (ncell xs) + ncell xs)%nat -> x j == rt0_cand xs k a c0 j.
+Proof.
+  intros xs k a c0 x Hk Hn Hx H j Hj.
+  assert (E : x j - rt0_cand xs k a c0 j == 0).
+  { apply (rt0_1d_kernel xs k (fun j => x j - rt0_cand xs k a c0 j) Hk Hn Hx); [|exact Hj].
+    intros i Hi. rewrite rdot_sub, (H i Hi), (rt0_1d_exact xs k a c0 i Hk Hn Hi). ring. }
+  lra.
+Qed.
+
+(* with a left-inverse certificate the "trivial kernel" hypothesis holds on the instance *)
+Lemma nonsingular_certificate : forall I N d,
+  inv_ok (i_nf I + i_nc I) (i_rows I) N d = true ->
+  forall v : vec, (forall j, (i_nf I + i_nc I <= j)%nat -> v j == 0) ->
+                  (forall r, In r (i_rows I) -> rdot r v == 0) ->
+                  forall j, (j < i_nf I + i_nc I)%nat -> v j == 0.
+Proof. intros I N d H v. apply (left_inverse_kernel _ _ N d v H). Qed.
+
 (* ------------------------------------------------------------------ a concrete instance:
    the real pp.RT0 system on the 1-D grid with nodes 0, 1, 3 (2 cells, 3 faces), K = 2,
    all Dirichlet: assembled 5 x 5 matrix with the right-hand sides of the basis pressures
@@ -265,7 +657,57 @@ Definition ex_inst : inst :=
 (3 # 1)); (8%nat, (1 # 1))]; [(0%nat, (1 # 1)); (1%nat, ((-1) # 1))]; [(1%nat, (1 # 1)); (2%nat,
 ((-1) # 1))]] [[(6004799503160661 # 36028797018963968); (6004799503160661 # 72057594037927936); (0 #
 1)]; [(6004799503160661 # 72057594037927936); (1 # 2); (6004799503160661 # 36028797018963968)]; [(0
-# 1); (6004799503160661 # 36028797018963968); (6004799503160661 # 18014398509481984)]]).
+# 1); (6004799503160661 # 36028797018963968); (6004799503160661 # 18014398509481984)]] [(0 # 1); (1
+# 1); (3 # 1)] (Some ([[(5192296858534827628530496329220096 # 1);
+(5192296858534827628530496329220096 # 1); (5192296858534827628530496329220096 # 1);
+(6490371073168534319490338297741312 # 1); (2596148429267413670150060088754176 # 1)];
+[(5192296858534827628530496329220096 # 1); (5192296858534827628530496329220096 # 1);
+(5192296858534827628530496329220096 # 1); ((-1298074214633706835075030044377088) # 1);
+(2596148429267413670150060088754176 # 1)]; [(5192296858534827628530496329220096 # 1);
+(5192296858534827628530496329220096 # 1); (5192296858534827628530496329220096 # 1);
+((-1298074214633706835075030044377088) # 1); ((-5192296858534827484415308253364224) # 1)];
+[(6490371073168534319490338297741312 # 1); ((-1298074214633706835075030044377088) # 1);
+((-1298074214633706835075030044377088) # 1); ((-973555660975280096282275017479511) # 1);
+((-649037107316853381508718003224578) # 1)]; [(2596148429267413670150060088754176 # 1);
+(2596148429267413670150060088754176 # 1); ((-5192296858534827484415308253364224) # 1);
+((-649037107316853381508718003224578) # 1); ((-1298074214633706811055832031734444) # 1)]],
+(7788445287802241154565368342118400 # 1))) [(mk_local 2%nat 2%nat [[(6004799503160661 #
+36028797018963968); (6004799503160661 # 72057594037927936)]; [(6004799503160661 #
+72057594037927936); (6004799503160661 # 36028797018963968)]] [[(6004799503160661 #
+36028797018963968); (6004799503160661 # 72057594037927936)]; [(6004799503160661 #
+72057594037927936); (6004799503160661 # 36028797018963968)]] [[(0 # 1); (1 # 1)]; [(1 # 1); (0 #
+1)]]); (mk_local 2%nat 2%nat [[(6004799503160661 # 18014398509481984); (6004799503160661 #
+36028797018963968)]; [(6004799503160661 # 36028797018963968); (6004799503160661 #
+18014398509481984)]] [[(6004799503160661 # 72057594037927936); (6004799503160661 #
+144115188075855872)]; [(6004799503160661 # 144115188075855872); (6004799503160661 #
+72057594037927936)]] [[(0 # 1); (2 # 1)]; [(2 # 1); (0 # 1)]])]).
 
 Lemma ex_inst_check : check (1 # 1000000000) ex_inst = true.
 Proof. vm_compute. reflexivity. Qed.
+
+Lemma check_inv : forall tol I N d,
+  check tol I = true -> i_inv I = Some (N, d) ->
+  inv_ok (i_nf I + i_nc I) (i_rows I) N d = true.
+Proof.
+  intros tol I N d H E. unfold check in H. apply andb_prop in H. destruct H as [H _].
+  apply andb_prop in H. destruct H as [_ H].
+  unfold inv_cert_ok in H. rewrite E in H. exact H.
+Qed.
+
+Lemma check_tie_1d : forall tol I,
+  check tol I = true -> i_xs I <> [] ->
+  agree_1d tol (i_xs I) (nth 0 (nth 0 (i_K I) []) 0) (i_rows I) = true.
+Proof.
+  intros tol I H E. unfold check in H. apply andb_prop in H. destruct H as [H _].
+  apply andb_prop in H. destruct H as [H _].
+  apply andb_prop in H. destruct H as [_ H]. unfold tie_1d_ok in H.
+  destruct (i_xs I) as [|x xs]; [congruence|].
+  apply andb_prop in H. destruct H as [_ H]. exact H.
+Qed.
+
+Lemma check_locals : forall tol I L,
+  check tol I = true -> In L (i_locals I) -> local_ok tol L = true.
+Proof.
+  intros tol I L H HL. unfold check in H. apply andb_prop in H. destruct H as [_ H].
+  rewrite forallb_forall in H. apply H. exact HL.
+Qed.
